@@ -22,6 +22,7 @@ ASSUMPTIONS = [
 UNIT_TIMEOUT = {"quick": 150, "thorough": 2400}
 
 COMMON = dict(
+    struct_depth_choices=[1, 2, 2, 3, 4, 5],
     p_item_fault=0.03,
     p_wrap=0.7,
     w_stmt=dict(raise_=0.15, syncitem=0.5),
@@ -29,7 +30,7 @@ COMMON = dict(
     lazy_modes=["ok", "ok", "ok", "raise"],
     p_try_raise=0.35,
 )
-PROFILE_A = gen.profile(p_shared=0.6, **COMMON)
+PROFILE_A = gen.profile(p_shared=0.6, p_syncshared=0.3, **COMMON)
 PROFILE_B = gen.profile(
     p_shared=0.0,
     ctxs=["ov", "ov", "attr", "actx"],
